@@ -208,12 +208,23 @@ def check_roundtrip(case):
     if n_bits in (8, 16, 32, 64):
         arr = np.array(case["ks"], dtype=NP_DTYPES[(signed, n_bits)])
         with sut("NumpyFixToFloatConverter"):
-            out = type_casts.NumpyFixToFloatConverter(n_frac)(arr)
+            f2f = type_casts.NumpyFixToFloatConverter(n_frac)
+            out = f2f(arr)
         require(out.shape == arr.shape, "NumpyFixToFloatConverter changes "
                 "the shape", det)
         for k, o in zip(case["ks"], out.tolist()):
             require(o == float(g(k)), "NumpyFixToFloatConverter disagrees "
                     "with fp_to_float", dict(det, k=k, got=repr(o)))
+        # the same array refilled in place (a buffer the caller keeps) and
+        # converted again with the same converter
+        with sut("NumpyFixToFloatConverter, refilled array"):
+            arr[...] = arr[::-1] // 2
+            ks2 = arr.tolist()
+            out2 = f2f(arr)
+        for k, o in zip(ks2, out2.tolist()):
+            require(o == float(g(k)), "NumpyFixToFloatConverter gives a "
+                    "stale or wrong result for an array that was refilled in "
+                    "place", dict(det, k=k, got=repr(o)))
     big = any(abs(k) >= 1 << 53 for k in case["ks"])
     return {"nontrivial": n_bits >= 54 or any(
         k in limits(signed, n_bits) for k in case["ks"]),
@@ -294,6 +305,21 @@ def check_numpy(case):
                              in "fi" else arr)
                 intact = np.array_equal(np.asarray(out), kept)
                 again = conv(arr)
+                # the caller refills the very same array in place (a buffer
+                # it keeps) and converts it once more with the same converter
+                refilled = None
+                a_ = np.asarray(arr)
+                if isinstance(arr, np.ndarray) and a_.size and \
+                        a_.dtype.kind == "f" and a_.flags.writeable:
+                    keep = a_.copy()
+                    a_[...] = -(a_ / 2)
+                    refilled = (np.array(conv(arr), copy=True),
+                                np.array(conv(a_.copy()), copy=True))
+                    a_[...] = keep
+    if refilled is not None:
+        require(np.array_equal(refilled[0], refilled[1]), "a converter gives "
+                "another result for an array refilled in place than for a "
+                "new array holding the same values", det)
     require(intact,
             "a result returned earlier changed when the converter was used "
             "again", det)
